@@ -80,6 +80,9 @@ def build_files(fd):
     # oxygen makes the set-up of the hydrogen-bond optimisation raise - with --noopt after the definitions were narrowed to water
     w0 = [dict(a, name="H1") for a in gen.water((6, 14, 4), resseq=101)]
     open(os.path.join(fd, "f3.pdb"), "w").write(gen.pdb_text([pep + w0 + gen.water((-7, 12, 3), resseq=102)]))
+    # nucleic acids under one-letter residue names: ribonucleotides, and deoxynucleotides (no O2') written the same way
+    open(os.path.join(fd, "n1.pdb"), "w").write(gen.pdb_text([gen.nucleic("ACGU", "R")]))
+    open(os.path.join(fd, "n2.pdb"), "w").write(gen.pdb_text([gen.nucleic("ACG", "D", names=["A", "C", "G"])]))
     # ligand complexes
     for nm, mol in (("l1", "ethanol.mol2"), ("l2", "acetate.mol2")):
         shutil.copy(os.path.join(DATA, mol), os.path.join(fd, nm + ".mol2"))
@@ -107,6 +110,8 @@ def build_files(fd):
         "H": {"input": "h.pdb", "args": ["--ff=PARSE", "--keep-chain"]},
         "F3": {"input": "f3.pdb", "args": ["--ff=AMBER", "--noopt"]},
         "F4": {"input": "f3.pdb", "args": ["--ff=AMBER"]},
+        "N1": {"input": "n1.pdb", "args": ["--ff=AMBER"]},
+        "N2": {"input": "n2.pdb", "args": ["--ff=AMBER"]},
     }
 
 
@@ -129,7 +134,7 @@ def _work(job):
 
 def run(ctx):
     rng = random.Random(ctx.seed)
-    ctx.rule = ("histories <= 3 runs over twenty-one configurations (two built-in force-field runs, a --usernames variant of the "
+    ctx.rule = ("histories <= 3 runs over twenty-three configurations (two built-in force-field runs, a --usernames variant of the "
                 "same --ff, two user force fields, an input needing multi-atom repair, a run failing in parsing, a run "
                 "failing in the charge check, a PROPKA run, an input among unparseable records, a two-model file, two mmCIF inputs with different optional columns, two ligand complexes, a low-pH PROPKA run under AMBER, two inputs for which chain identifiers are handed out), each in a fresh interpreter x hash seeds; quick: all of length "
                 "<= 2 plus a seeded sample of length 3.  Distinct = distinct (history, seed); non-trivial = length >= 2")
@@ -137,7 +142,7 @@ def run(ctx):
                         "the verdict is on the bytes of the PQR file (or the exception class) only"]
     ctx.trusted += ["vlib/histchild.py", "TLC 1.8"]
     cfg = os.path.join(ctx.work, "h.cfg")
-    names = ["A", "B", "C", "U1", "U2", "D", "F1", "F2", "P", "E", "M", "X1", "X2", "L1", "L2", "PA", "K", "H", "L3", "F3", "F4"]
+    names = ["A", "B", "C", "U1", "U2", "D", "F1", "F2", "P", "E", "M", "X1", "X2", "L1", "L2", "PA", "K", "H", "L3", "F3", "F4", "N1", "N2"]
 
     def cfg_text(leak, emit, invs, maxruns=3):
         s = ("SPECIFICATION Spec\nCONSTANTS\n  Configs = {" + ", ".join(json.dumps(n) for n in names) + "}\n"
